@@ -710,7 +710,8 @@ def fam_recerr(rnd, i):
             if c == "watchlist":
                 steps.append(call(w, "watchlist"))
             elif c == "add":
-                steps.append(call(w, "add", ("r", "sub"), "rel"))
+                # (not the directory whose recorded flags the fault point has made invalid: re-adding that one fails by construction)
+                steps.append(call(w, "add", ("r",) if d == ("r", "sub") else ("r", "sub"), "rel"))
             else:
                 steps.append(call(w, "remove", ("r", "nothere"), "rel"))
         steps += [drain(w), fs("create", d + ("f1",)), drain(w), obs(w), call(w, "close"), drain(w), obs(w)]
